@@ -2,7 +2,8 @@
 (* The proxy's call/reply protocol: all histories of up to MaxCalls calls   *)
 (* with every reply kind.  Request ids strictly increase over the life of a *)
 (* proxy; an error reply never yields a result; the exception class is the  *)
-(* registered subclass for the code or the base class.                       *)
+(* registered subclass for the code or the base class.  Transport faults    *)
+(* (Fault / Surface / Retry) never let an id be used twice.                  *)
 EXTENDS Rpc, TLC, Integers
 CONSTANT MaxCalls
 VARIABLES idc, sent, phase, last, ncalls
@@ -14,10 +15,17 @@ Call == phase = "idle" /\ ncalls < MaxCalls /\ \E step \in 1..2 :
    idc' = idc + step /\ sent' = Append(sent, idc + step) /\ phase' = "waiting" /\ ncalls' = ncalls + 1 /\ UNCHANGED last
 Reply == phase = "waiting" /\ \E kind \in Kinds, code \in Codes :
    last' = [kind |-> kind, code |-> code, out |-> Outcome(kind, code)] /\ phase' = "idle" /\ UNCHANGED <<idc, sent, ncalls>>
-Next == Call \/ Reply
+\* A transport fault instead of a reply.  What the proxy does next is its choice: let the fault through to the caller
+\* (Surface - what the code does) or put the request on the wire again (Retry) - with a fresh, larger id.
+Fault == phase = "waiting" /\ \E kind \in FaultKinds :
+   last' = [kind |-> kind, code |-> 0, out |-> Outcome(kind, 0)] /\ phase' = "faulted" /\ UNCHANGED <<idc, sent, ncalls>>
+Surface == phase = "faulted" /\ phase' = "idle" /\ UNCHANGED <<idc, sent, last, ncalls>>
+Retry == phase = "faulted" /\ Len(sent) < 2 * MaxCalls /\ \E step \in 1..2 :
+   idc' = idc + step /\ sent' = Append(sent, idc + step) /\ phase' = "waiting" /\ UNCHANGED <<last, ncalls>>
+Next == Call \/ Reply \/ Fault \/ Surface \/ Retry
 IdsIncrease == \A i \in 1..(Len(sent) - 1) : sent[i] < sent[i + 1]
-ErrorNeverResult == (phase = "idle" /\ ncalls > 0 /\ last.kind # "result") => last.out.k = "exc"
-ClassRegisteredOrBase == (phase = "idle" /\ ncalls > 0 /\ last.out.k = "exc") =>
+ErrorNeverResult == (phase = "idle" /\ ncalls > 0 /\ last.kind \notin FaultKinds \cup {"result"}) => last.out.k = "exc"
+ClassRegisteredOrBase == (phase = "idle" /\ ncalls > 0 /\ last.kind \notin FaultKinds /\ last.out.k = "exc") =>
    IF last.kind = "error-code" /\ last.code \in RegisteredCodes THEN last.out.cls = ClassOfCode(last.code) /\ last.out.cls # "JSONRPCError"
    ELSE last.out.cls = "JSONRPCError"
 \* codec sanity
